@@ -34,22 +34,28 @@ func c05Run(sc *WF, flavor string, point int, at time.Duration) (tr []Ev, err er
 	var ctx context.Context
 	var cancel context.CancelFunc
 	base := time.Now()
-	if flavor == "deadline" && point >= -1 {
+	switch {
+	case flavor == "deadline" && point >= -1:
 		ctx, cancel = context.WithDeadline(context.Background(), base.Add(at))
-	} else {
+	case flavor == "deadline-cause" && point >= -1:
+		ctx, cancel = context.WithDeadlineCause(context.Background(), base.Add(at), errors.New("custom deadline cause"))
+	case flavor == "cause":
+		c2, cancelCause := context.WithCancelCause(context.Background())
+		ctx, cancel = c2, func() { cancelCause(errors.New("custom cancellation cause")) }
+	default:
 		ctx, cancel = context.WithCancel(context.Background())
 	}
 	defer cancel()
 	cancelSeq = -1
 	x.hook = func(seq int, ev *Ev) {
 		time.Sleep(500 * time.Millisecond)
-		if flavor == "cancel" && seq == point {
+		if (flavor == "cancel" || flavor == "cause") && seq == point {
 			cancel()
 		}
 		time.Sleep(500 * time.Millisecond)
 	}
 	if point == -1 {
-		if flavor == "cancel" {
+		if flavor == "cancel" || flavor == "cause" {
 			cancel()
 		} else {
 			time.Sleep(at + time.Second) // let the deadline pass
@@ -89,7 +95,7 @@ func c05Check(c *C05Case) Verdict {
 		if err == nil || !errors.Is(err, ctxErr) {
 			return bad("C05:pre-done-error", "context already done (%v) but run returned %v", ctxErr, err)
 		}
-		return ok(false, "pre-done", c.Flavor)
+		return ok(false, "pre-done", "flavor:"+c.Flavor)
 	}
 	// (3) projected on the callbacks the property speaks about (node starts = prep, exec attempts)
 	// the cancelled run must be a prefix of the reference run; fallback/post of the node that
@@ -137,7 +143,7 @@ func c05Check(c *C05Case) Verdict {
 			}
 		}
 	}
-	cls := []string{c.Flavor, "in-" + tr[point].Phase}
+	cls := []string{"flavor:" + c.Flavor, "in-" + tr[point].Phase}
 	if sc.depth(sc.Root) >= 2 {
 		cls = append(cls, "nested")
 	}
@@ -177,7 +183,7 @@ func TestC05(t *testing.T) {
 				w := part.g.gen(rt)
 				n := c05Points(&w)
 				for k := -1; k < n; k++ {
-					for _, fl := range []string{"cancel", "deadline"} {
+					for _, fl := range []string{"cancel", "deadline", "cause", "deadline-cause"} {
 						c := C05Case{WF: w, Point: k, Flavor: fl}
 						v := checkC05(t, c)
 						points++
